@@ -333,7 +333,22 @@ func Path2ContainsPath1(path1, path2 Path64) bool {
 
 	bounds := getBounds(path1)
 	mp := bounds.MidPoint()
-	return PointInPolygon(mp, path2) != IsOutside
+	if res := PointInPolygon(mp, path2); res != IsOn {
+		return res == IsInside
+	}
+	// the mid-point lies on path2 as well, so it decides nothing: use the
+	// mid-points of path1's edges instead (exact at doubled coordinates)
+	path2x2 := make(Path64, len(path2))
+	for i, pt := range path2 {
+		path2x2[i] = Point64{X: 2 * pt.X, Y: 2 * pt.Y}
+	}
+	for i, pt := range path1 {
+		next := path1[(i+1)%len(path1)]
+		if res := PointInPolygon(Point64{X: pt.X + next.X, Y: pt.Y + next.Y}, path2x2); res != IsOn {
+			return res == IsInside
+		}
+	}
+	return true
 }
 
 func pointInOpPolygon(pt Point64, op *OutPt) PointInPolygonResult {
